@@ -27,7 +27,7 @@ from processscheduler.resource import Worker, CumulativeWorker
 from processscheduler.function import ConstantFunction
 from processscheduler.buffer import ConcurrentBuffer, NonConcurrentBuffer
 from processscheduler.util import get_minimum, get_maximum
-from processscheduler.util import sort_duplicates
+from processscheduler.util import sort_with_ties
 
 import processscheduler.base
 
@@ -310,8 +310,8 @@ class IndicatorResourceIdle(Indicator):
             )
         # sort both lists. Two dates may be equal (a zero-length task that starts
         # when another one starts or ends), so the sort must accept duplicates
-        sorted_starts, c1 = sort_duplicates(starts)
-        sorted_ends, c2 = sort_duplicates(ends)
+        sorted_starts, c1 = sort_with_ties(starts)
+        sorted_ends, c2 = sort_with_ties(ends)
         self.append_z3_list_of_assertions(c1 + c2)
         # from now, starts and ends are sorted in asc order
         # the space between two consecutive tasks is the sorted_start[i+1]-sorted_end[i]
